@@ -136,7 +136,7 @@ class Adapter:
         return list(s) if self.fam == "cross" else [s]
 
     def components(self, normalized=True):
-        if base_of(self.cls) == "POP":
+        if base_of(self.cls) in ("POP", "SparsePCA"):  # no `normalized` switch
             return [self.model.components()]
         c = self.model.components(normalized=normalized)
         return list(c) if self.fam == "cross" else [c]
